@@ -297,10 +297,11 @@ def run(tier):
             opt = None
             if isinstance(val, tuple) and val[:1] == ('field',) and isinstance(val[1], tuple) and val[1][:1] == ('as',) and val[1][2] == 'Some':
                 opt = peel(val[1][1])
-            some = [cn for cn in extra if isinstance(cn[0], tuple) and cn[0][:1] == ('discr',) and peel(cn[0][1]) == opt and cn[1] == (1,)]
-            other = [cn for cn in extra if cn not in some]
-            okp = opt is not None and len(some) == 1 and not other
-            whyp = 'the port byte is written only under %s' % [(term_str(cn[0])[:50], cn[1]) for cn in other] if other else 'the byte written is not the payload of the port option tested'
+            # which kind of payload / whether a port exists is decided by enum tests (on the payload description, on the port option);
+            # anything else - a length, an emptiness test, a flag - makes the port byte depend on more than the presence of a port
+            other = [cn for cn in extra if not (isinstance(cn[0], tuple) and cn[0][:1] == ('discr',) and not term_contains(cn[0], lambda y: isinstance(y, tuple) and y[:1] == ('call',)))]
+            okp = not other
+            whyp = 'the port byte is written only under %s' % [(term_str(cn[0])[:50], cn[1]) for cn in other]
     res.require(okp, 'C01:DataFrame::build_into:fport-guard', 'FPort: %s - a frame with a port and an empty FRMPayload keeps whatever the buffer held at that offset (and the MIC covers it)' % whyp, bf.body.path,
                 'EXACT-GUARD(port byte written <=> a port is present)', instance='DataFrame: the FPort byte is written exactly when a port is present')
     # the cursor: starts right after FOpts, +1 after the port byte
